@@ -370,7 +370,7 @@ def check_c04(tier):
     if len(settings_h) < 30:
         missing["settings conversions"] = ["only %d weakening conversions rejected" % len(settings_h)]
     missing = {k: v for k, v in missing.items() if v}
-    if missing and not bad:
+    if missing and not out.violations:
         raise ToolError("vacuous run: " + json.dumps(missing))
     rc = out.finish()
     # ---- 7. evidence -------------------------------------------------------------------------------------------
